@@ -2,6 +2,7 @@ import SakuraVerif.Model.Lexer
 import SakuraVerif.Model.LoopMachine
 import SakuraVerif.Model.Tie
 import SakuraVerif.Model.Reserve
+import SakuraVerif.Model.Time
 import SakuraVerif.Gen.Consts
 /-! # Model.Exec — literal model of `runner::exec` for the tokens of the core note language
 
@@ -62,6 +63,10 @@ structure Song where
   seed : Nat := Gen.songNew_rand_seed.toNat
   playFrom : Int := Gen.songNew_play_from
   lineno : Int := 0
+  measureShift : Int := Gen.flagsNew_measure_shift
+  timesigFrac : Int := Gen.songNew_timesig_frac
+  timesigDeno : Int := Gen.songNew_timesig_deno
+  tempo : Int := Gen.songNew_tempo
   bad : Bool := false
 deriving Repr
 
@@ -170,6 +175,26 @@ def constArg (tk : Tok) : Option Int :=
   | some [Tok.mk .tokens _ _ _ _ (some [Tok.mk .constInt n _ _ _ _])] => some n
   | _ => none
 
+/-- constant arguments: every child is `ConstInt n` or `Tokens [ConstInt n]` (what `exec_args` evaluates without variables) -/
+def argInts (tk : Tok) : Option (List Int) :=
+  match tk.children with
+  | none => some []
+  | some kids => kids.mapM (fun k => match k with
+      | Tok.mk .constInt n _ _ _ _ => some n
+      | Tok.mk .tokens _ _ _ _ (some [Tok.mk .constInt n _ _ _ _]) => some n
+      | _ => none)
+
+/-- `TieMode::from_i` -/
+def tieModeOf (m : Int) : Int := if m = 1 ∨ m = 2 ∨ m = 3 then m else 0
+
+def metaEvent (time ty : Int) (data : List Nat) : Event := ⟨.metaEv, time, 0, 0xFF, ty, data.length, data⟩
+
+/-- `tempo_change` -/
+def tempoChange (s : Song) (tempo : Int) : Song :=
+  let mpq : Int := if tempo > 0 then Int.tdiv 60000000 tempo else 120
+  let t := s.t
+  { (s.setT { t with events := t.events ++ [metaEvent t.timepos 0x51 [(mpq / 65536 % 256).toNat, (mpq / 256 % 256).toNat, (mpq % 256).toNat]] }) with tempo := tempo }
+
 def toLoopTok (t : Tok) : Loop.Tok Tok :=
   match t.ty, t.data with
   | .loopBegin, [.int n] => if n < 0 then .other t else .lbegin n.toNat
@@ -185,6 +210,7 @@ def leaf (F : Nat) : Nat → Tok → Song → Song
     match tk.ty with
     | .lineNo => { s with lineno := match tk with | .mk _ _ l _ _ _ => l }
     | .comment => s
+    | .timeBase => s      -- set while lexing (the run starts with the song's time base)
     | .note => execNote s tk
     | .noteN => execNoteN s tk
     | .rest => s.setT { t with timepos := t.timepos + Len.calcLength s.tb t.length (dataS tk.data 0) * tk.vi }
@@ -232,6 +258,63 @@ def leaf (F : Nat) : Nat → Tok → Song → Song
           | some s' => if s'.bad then s' else s'.setT { s'.t with timepos := t.timepos + dl, length := t.length }
           | none => { s with bad := true })
        | _, _ => { s with bad := true })
+    | .keyShift => (match argInts tk with
+        | some a => { s with keyShift := a.getLast?.getD 0 }
+        | none => { s with bad := true })
+    | .trackKey => (match argInts tk with
+        | some a => s.setT { t with trackKey := a.getLast?.getD 0 }
+        | none => { s with bad := true })
+    | .keyFlag => (match tk.data with
+        | [.arr a] => { s with keyFlag := a.map SV.toI }
+        | _ => { s with bad := true })
+    | .useKeyShift => { s with useKeyShift := tk.vi != 0 }
+    | .tieMode => (match argInts tk with
+        | some [] => s
+        | some [m] => s.setT { t with tieMode := tieModeOf m }
+        | some (m :: v :: _) => s.setT { t with tieMode := tieModeOf m, tieValue := v }
+        | none => { s with bad := true })
+    | .songVelocityAdd => (match argInts tk with
+        | some a => { s with vAdd := a.getLast?.getD 0 }
+        | none => { s with bad := true })
+    | .songQAdd => (match argInts tk with
+        | some a => { s with qAdd := a.getLast?.getD 0 }
+        | none => { s with bad := true })
+    | .measureShift => (match argInts tk with
+        | some a => { s with measureShift := a.getLast?.getD 0 }
+        | none => { s with bad := true })
+    | .voice => (match argInts tk with
+        | some a =>
+          let no := clampI 1 (a.getD 0 1) 128 - 1
+          let ev : List Event :=
+            if a.length = 1 then [⟨.voice, t.timepos, t.channel, no, 0, 0, []⟩]
+            else [⟨.cc, t.timepos, t.channel, 0, a.getD 1 0, 0, []⟩, ⟨.cc, t.timepos, t.channel, 0x20, a.getD 2 0, 0, []⟩, ⟨.voice, t.timepos, t.channel, no, 0, 0, []⟩]
+          s.setT { t with events := t.events ++ ev }
+        | none => { s with bad := true })
+    | .controlChange => (match argInts tk with
+        | some a => s.setT { t with events := t.events ++ [⟨.cc, t.timepos, t.channel, tk.vi, a.getLast?.getD 0, 0, []⟩] }
+        | none => { s with bad := true })
+    | .pitchBend =>
+      if (tk.data.take 1).any isVarRef then { s with bad := true } else
+      let v := dataI tk.data 0
+      s.setT { t with events := t.events ++ [⟨.pitchBend, t.timepos, t.channel, if tk.vi = 0 then v * 128 else v + 8192, 0, 0, []⟩] }
+    | .tempo => (match argInts tk with
+        | some a => tempoChange s (clampI 10 (a.getLast?.getD 0) 300)
+        | none => { s with bad := true })
+    | .timeSignature => (match argInts tk with
+        | some (a0 :: a1 :: _) =>
+          let frac := clampI 2 a0 64
+          let d0 := clampI 2 a1 64
+          let deno : Int := if d0 = 2 ∨ d0 = 4 ∨ d0 = 8 ∨ d0 = 16 then d0 else 4
+          let dv : Nat := if deno = 2 then 1 else if deno = 4 then 2 else if deno = 8 then 3 else if deno = 16 then 4 else 2
+          { (s.setT { t with events := t.events ++ [metaEvent t.timepos 0x58 [u8 frac, dv, 0x18, 0x08]] }) with timesigFrac := frac, timesigDeno := deno }
+        | some _ => s          -- fewer than two arguments: a runtime error is logged, nothing else happens
+        | none => { s with bad := true })
+    | .time => (match argInts tk with
+        | some a => s.setT { t with timepos := Time.getTime s.tb s.timesigFrac s.timesigDeno s.measureShift a }
+        | none => { s with bad := true })
+    | .playFrom => (match argInts tk with
+        | some a => { s with playFrom := Time.getTime s.tb s.timesigFrac s.timesigDeno s.measureShift a }
+        | none => { s with bad := true })
     | .loopBegin => { s with bad := true }      -- a loop count that is negative or a variable reference
     | _ => { s with bad := true }
 
